@@ -848,8 +848,8 @@ pub fn run(env: &Env) -> Rec {
     let base16 = entries_of(&UnicodeData::load(&ucd::data_dir().join("ucd16/UnicodeData.txt")));
     let aliases = std::fs::read_to_string(ucd::data_dir().join("ucd6/PropertyValueAliases.txt")).unwrap_or_default();
     let (shard, nshards) = env.shard;
-    let total = env.n(160, 5000);
-    let n_compile = env.n(2, 40);
+    let total = env.n(1200, 30_000);
+    let n_compile = env.n(4, 60);
     if shard == 0 {
         let mut rng = Rng::stream(env.seed, 0x15_FFFF);
         one_case(env, usize::MAX - 1, &mut rng, &base6, &base16, &aliases, true, true, &mut rec);
